@@ -294,11 +294,23 @@ def fastq_words(n):
                 yield w
 
 
+_STRATEGIES = ('NLAIII384C8U3', 'CS2C8U6')
+
+
+def _cell_name(cell):
+    """a cell is (barcode index, demultiplexing strategy): the barcode indices are numbered per strategy, so cells 1 and 2
+    share index 1 under two strategies, 3 and 4 share index 2, ... (a library demultiplexed with -use A,B goes through ONE
+    FastqHandle)"""
+    return (cell + 1) // 2, _STRATEGIES[(cell + 1) % 2]
+
+
 class _Rec:
     def __init__(self, cell, mate, i):
-        self.tags = {'MX': 'NLAIII384C8U3'}
         if cell != NO_CELL:
-            self.tags['bi'] = cell
+            bi, mx = _cell_name(cell)
+            self.tags = {'MX': mx, 'bi': bi}
+        else:
+            self.tags = {'MX': _STRATEGIES[0]}
         self.s = f'@x{i}:{cell}:{mate}\nAC{i}\n+\nII{i}\n'
 
     def __str__(self):
@@ -365,7 +377,8 @@ def execute_fastq(word, maxHandles, plan, paired=True):
                 viol.append(('fastqhandle:records-without-cell-index-not-in-exactly-one-file-of-their-own',
                              {'mate': mate, 'files_with_exactly_them': holders, 'want': want}))
             continue
-        named = [p for p in by_content if f'.{cell}.' in p and p.endswith(f'.{mate}.fastq.gz')]
+        bi, mx = _cell_name(cell)
+        named = [p for p in by_content if f'.{bi}.{mx}.' in p and p.endswith(f'.{mate}.fastq.gz')]
         if len(named) != 1 or by_content.get(named[0]) != want:
             viol.append(('fastqhandle:cell-file-does-not-hold-exactly-its-records',
                          {'cell': cell, 'mate': mate, 'files': {p: by_content[p] for p in named}, 'want': want}))
